@@ -246,3 +246,86 @@ def run(repo, rep):
                         vid.append((m.name, norm(node)))
     rep.check(all("uuid" in v or ".value_id" in v for _, v in vid) and vid, "C08-g", "ethosu/vela/tensor.py", "value_id is a fresh uuid or copied from another tensor with the same values", str(vid))
     rep.floor("C08-g", 12)
+
+    # ---------------------------------------------------------------- h: key components are computed from the quantities they name
+    rep.clause("C08-h", "the block-depth component of the cache key is min(requested OFM block depth, OFM depth of the weights), with the OFM depth read from the same axis as the encoder's full_ofm_depth")
+    fod = [s_ for s_ in ast.walk(f) if isinstance(s_, ast.Assign) and norm(s_.targets[0]) == "full_ofm_depth"]
+    bd = [s_ for s_ in ast.walk(cfn) if isinstance(s_, ast.Assign) and norm(s_.targets[0]) == "block_depth"]
+    if len(fod) != 1 or len(bd) != 1:
+        raise AnalysisError("full_ofm_depth / block_depth definitions not found")
+    v = bd[0].value
+    ok = isinstance(v, ast.Call) and call_name(v) == "min" and len(v.args) == 2 and {norm(a) for a in v.args} == {"ofm_block_depth", norm(fod[0].value)}
+    rep.check(ok, "C08-h", f"{WC}:create_weight_compression_config", f"block_depth = min(ofm_block_depth, {norm(fod[0].value)})",
+              f"block_depth = {norm(v)}: the key component no longer follows the requested block depth (the encoder reads the OFM depth as {norm(fod[0].value)}), so streams reordered for one block depth are returned for another")
+    pos = [norm(a) for a in wcc[0].value.args]
+    params = [a.arg for a in cfn.args.args]
+    want = {"weight_tens": "weight_tens", "npu_block_type": "npu_block_type", "ofm_block_depth": "block_config.ofm_block.depth", "dilation": "kernel.dilation"}
+    for prm, arg in zip(params, pos):
+        if prm in want:
+            rep.check(arg == want[prm], "C08-h", site, f"key parameter {prm} <- {want[prm]}", f"receives {arg}")
+    rep.floor("C08-h", 5)
+
+    # ---------------------------------------------------------------- i: slices in the cost == slices the stored tensor was encoded with
+    rep.clause("C08-i", "the depth-slice list kept in the schedule cost is the list the weight / scale tensors stored next to it were encoded with (each (re)definition of the chosen tensor is paired with the matching slice list in the same block)")
+    sch = repo.mod("scheduler")
+    pw = sch.func("Scheduler.propose_weight_buffering")
+    SITE_I = "ethosu/vela/scheduler.py:Scheduler.propose_weight_buffering"
+    enc_of = {}
+    for st in ast.walk(pw):
+        if isinstance(st, ast.Assign) and isinstance(st.value, ast.Call) and (call_name(st.value) or "").endswith("encode_weight_and_scale_tensor") and isinstance(st.targets[0], ast.Tuple):
+            enc_of[norm(st.targets[0].elts[0])] = norm(st.value.args[-1])
+    if "full_weights" not in enc_of or "encoded_weights" not in enc_of:
+        raise AnalysisError("propose_weight_buffering: encode calls for full_weights / encoded_weights not found")
+
+    def blocks(node):
+        for fld in ("body", "orelse", "finalbody"):
+            b = getattr(node, fld, None)
+            if isinstance(b, list) and b and isinstance(b[0], ast.stmt):
+                yield b
+                for st in b:
+                    yield from blocks(st)
+
+    n_i = 0
+    for blk in blocks(pw):
+        for i, st in enumerate(blk):
+            tgt = None
+            if isinstance(st, (ast.Assign, ast.AnnAssign)):
+                t0 = st.targets[0] if isinstance(st, ast.Assign) else st.target
+                if norm(t0) == "encoded_weights" and st.value is not None:
+                    tgt = norm(st.value)
+                elif isinstance(t0, ast.Tuple) and t0.elts and norm(t0.elts[0]) == "encoded_weights":
+                    tgt = "<encode>"
+            if tgt is None:
+                continue
+            want = enc_of.get(tgt) if tgt != "<encode>" else enc_of["encoded_weights"]
+            if want is None:
+                raise AnalysisError(f"encoded_weights defined from `{tgt}`, whose slice list is unknown")
+            prev = None
+            for back in reversed(blk[:i]):
+                if isinstance(back, ast.Assign) and norm(back.targets[0]) == "cost.ofm_depth_slices":
+                    prev = back
+                    break
+                if any(isinstance(x, ast.Assign) and norm(x.targets[0]) == "cost.ofm_depth_slices" for x in ast.walk(back)):
+                    break
+            n_i += 1
+            ok = prev is not None and (norm(prev.value) == want or want == "cost.ofm_depth_slices")
+            rep.check(ok, "C08-i", SITE_I, f"`{norm(st)[:60]}` follows `cost.ofm_depth_slices = {want if want != 'cost.ofm_depth_slices' else '<the list passed to the encoder>'}` in its block",
+                      ("no assignment of cost.ofm_depth_slices precedes it in the block" if prev is None else f"preceded by `{norm(prev)}`") +
+                      ": the cost keeps the slice list of another encoding, and stripes are generated for slices the stored tensor has no ranges for")
+    rep.floor("C08-i", 3)
+
+    # ---------------------------------------------------------------- j: a present core without a range gets an empty stream
+    rep.clause("C08-j", "on a multi-core target a core that received no range is programmed with length 0 (WEIGHT and SCALE registers)")
+    gen = repo.mod("register_command_stream_generator")
+    for fn_, lst in (("generate_weights", "weights"), ("generate_biases", "biases")):
+        g = gen.func(fn_)
+        sel = [n_ for n_ in ast.walk(g) if isinstance(n_, ast.If) and norm(n_.test) == f"core < len({lst})"]
+        ok = len(sel) == 1 and len(sel[0].orelse) == 1 and isinstance(sel[0].orelse[0], ast.If) and norm(sel[0].orelse[0].test) == "core < arch.ncores"
+        if not ok:
+            raise AnalysisError(f"{fn_}: per-core selection not recognised")
+        lens = [c for c in calls_in(sel[0].orelse[0], "emit.cmd1_with_offset")]
+        rep.check(len(lens) == 1 and len(lens[0].args) == 2 and try_fold(lens[0].args[1]) == 0, "C08-j", f"ethosu/vela/register_command_stream_generator.py:{fn_}",
+                  "the length register of a core without a range is written with 0", f"written with `{norm(lens[0].args[1]) if lens and len(lens[0].args) > 1 else '?'}`: the core decodes another core's stream as its own channels")
+        own = [c for c in calls_in(ast.Module(body=sel[0].body, type_ignores=[]), "emit.cmd1_with_offset")]
+        rep.check(len(own) == 1 and norm(own[0].args[1]) == f"{lst}[core].length", "C08-j", f"ethosu/vela/register_command_stream_generator.py:{fn_}", f"a core with a range gets {lst}[core].length", "")
+    rep.floor("C08-j", 4)
